@@ -204,6 +204,21 @@ pub fn check(pa: &MP, pb: &MP, op: Operation, tol: f64, loc: &mut Local) -> Vec<
 
 pub fn replay(case: &Value, verbose: bool) -> Vec<String> {
     let mut loc = Local::default();
+    if case["kind"] == "degen" {
+        let fam = family_cached(case["family"].as_str().unwrap());
+        let (a, b) = (case["a"].as_u64().unwrap() as usize, case["b"].as_u64().unwrap() as usize);
+        let (kind, side) = (case["variant"].as_str().unwrap(), case["side"].as_u64().unwrap() as u8);
+        let va = if side & 1 != 0 { super::c03::degen_variant(&fam.m[a], kind) } else { fam.m[a].clone() };
+        let vb = if side & 2 != 0 { super::c03::degen_variant(&fam.m[b], kind) } else { fam.m[b].clone() };
+        if verbose {
+            println!("A = {}\nB = {}", hex(&va), hex(&vb));
+        }
+        let mut cl = vec![];
+        for op in OPS {
+            cl.extend(check(&va, &vb, op, 0.0, &mut loc));
+        }
+        return cl;
+    }
     let (pa, pb, tol) = operands_of_case(case, verbose);
     let mut cl = vec![];
     for op in OPS {
@@ -365,6 +380,34 @@ pub fn run(tier: &str) -> i32 {
         &tables,
         &|pa, pb, op, tol, _, loc| check(pa, pb, op, tol, loc),
     );
+    // operands with repeated consecutive vertices (collapsed edges): "exactly one pair per NON-DEGENERATE input
+    // edge" is only a statement if degenerate edges occur
+    for name in ["G22", "T22"] {
+        let fam = Family::new(name);
+        let n = fam.cx.noperands();
+        st.family(&format!("{name}/M with repeated consecutive vertices (2 variants x 3 sides) on {} ordered pairs x 4 operations", n as u64 * n as u64));
+        (0..n).into_par_iter().for_each(|a| {
+            let mut loc = Local::default();
+            for b in 0..n {
+                for kind in ["repeated-vertices", "all-rings-doubled-vertices"] {
+                    for side in 1..=3u8 {
+                        let va = if side & 1 != 0 { super::c03::degen_variant(&fam.m[a as usize], kind) } else { fam.m[a as usize].clone() };
+                        let vb = if side & 2 != 0 { super::c03::degen_variant(&fam.m[b as usize], kind) } else { fam.m[b as usize].clone() };
+                        loc.states += 1;
+                        if fam.nontrivial(a, b) {
+                            loc.nontrivial += 1;
+                        }
+                        for op in OPS {
+                            for c in check(&va, &vb, op, 0.0, &mut loc) {
+                                loc.violation(&c, format!("{name}:degen:{kind}:{side}:{a}:{b}:{c}"), json!({"prop": "C13", "kind": "degen", "family": name, "a": a, "b": b, "variant": kind, "side": side}));
+                            }
+                        }
+                    }
+                }
+            }
+            st.merge(&loc);
+        });
+    }
     let f = Family::new("T22");
     st.sample(json!({"family": "T22", "a_mask": 77, "b_mask": 178, "A": hex(&f.m[77]), "B": hex(&f.m[178]), "stages": "fill_queue, subdivide (public)", "ops": "all four"}));
     finish(
